@@ -307,6 +307,19 @@ func propIdentityPropagation() func(t *rapid.T) {
 		resp := gateway.Do(ctx, rr)
 		cancel()
 		defer pool.Forget(reqID)
+		if resp.Err == nil && resp.Status == 503 && len(pool.Find(reqID)) == 0 && strings.Contains(string(resp.Body), "context canceled") {
+			// a health probe that was in flight when a transport was rebuilt (this case or an earlier one) reported
+			// "context canceled" only now and the endpoint is unhealthy until its next probe: the gateway rightly
+			// answers 503; that is not an identity matter - wait for readiness and send the request again
+			if !gateway.WaitReady("alpha", func(string) bool { return true }, 15*time.Second) {
+				sub.Inconclusive()
+				t.Skip("endpoint not ready after the transport reset")
+			}
+			ctx2, cancel2 := context.WithTimeout(context.Background(), 20*time.Second)
+			resp = gateway.Do(ctx2, rr)
+			cancel2()
+			sub.Class("resent-after-a-probe-cancelled-by-a-transport-reset")
+		}
 		sub.Eval()
 		if resp.Err != nil {
 			t.Fatalf("harness: request failed: %v", resp.Err)
